@@ -20,6 +20,10 @@ pub mod telemetry;
 /// FIFO wait-list, spin-yield-then-park, barging.
 pub mod sync;
 
+/// Verification hook: lock-acquisition events (see the module docs).
+#[cfg(excsn_fibre_verif)]
+pub mod verif_lock_hook;
+
 // Internal utilities
 mod internal;
 mod sync_util;
